@@ -250,6 +250,14 @@ def serialisations(cfg, rng):
             return [permute(x) for x in o]
         return o
     out.append(("key_permuted", json.dumps(permute(cfg), indent=1)))
+    def ordered(o, rev):
+        if isinstance(o, dict):
+            return {k: ordered(o[k], rev) for k in sorted(o.keys(), reverse=rev)}
+        if isinstance(o, list):
+            return [ordered(x, rev) for x in o]
+        return o
+    out.append(("keys_sorted", json.dumps(ordered(cfg, False), separators=(",", ":"))))
+    out.append(("keys_reverse_sorted", json.dumps(ordered(cfg, True), indent=2)))
     compact = json.dumps(cfg, separators=(",", ":"))
     ntok = compact.count(",") + compact.count(":") + 1
     for name, size in (("padded_9k", 9 * 1024), ("padded_70k", 70 * 1024), ("padded_300k", 300 * 1024)):
@@ -285,14 +293,26 @@ def serialisations(cfg, rng):
 def c18_value(bins, idx, targets, rng, extra=None):
     fx = fixture.Fixture(bins, targets, extra_cfg=extra or {})
     try:
-        fx.git_init()
+        small = len(targets) <= 45
+        if small:
+            # a command file in every target's default command directory, so that resolution can be observed
+            for t in targets:
+                fx.add_cmd(t["path"], "build", [{"op": "exit", "code": 0}], ext=".sh")
         cfg = fx.config()
+        sers = serialisations(cfg, rng)
+        if idx % 2 == 1:
+            # a lockfile left over beside a configuration that names no source (it matches ONE of the serialisations):
+            # it must not matter
+            with open(os.path.join(fx.repo, "Monorail.lock"), "w") as f:
+                json.dump({"checksum": hashlib.sha256(sers[1][1].encode("utf-8")).hexdigest()}, f)
+        fx.git_init()
         styles = []
         first_out = None
-        for name, text in serialisations(cfg, rng):
+        for name, text in sers:
             fx.write_config(text)
             outs, rc = [], 0
-            for args in (["config", "show"], ["analyze", "--target-groups"], ["target", "show", "-g"]):
+            for args in (["config", "show"], ["analyze", "--target-groups"], ["target", "show", "-g"],
+                         ["target", "show", "--commands", "--argmaps"]):
                 r = fx.monorail(args)
                 o = r["out"]
                 if isinstance(o, dict):
@@ -300,6 +320,14 @@ def c18_value(bins, idx, targets, rng, extra=None):
                     o.pop("timestamp", None)
                 outs.append(o)
                 rc = max(rc, abs(r["rc"]) if r["rc"] is not None else 9)
+            if small:
+                # what a run resolves and executes for the first two targets (statuses only)
+                r = fx.monorail(["run", "-c", "build", "-t"] + [t["path"] for t in targets[:2]])
+                st = None
+                if isinstance(r["out"], dict):
+                    # (the order in which -t targets are taken is unspecified: statuses per target only)
+                    st = [{k: v.get("status") for g in c.get("target_groups", []) for k, v in g.items()} for c in r["out"].get("results", [])]
+                outs.append({"run_rc": r["rc"], "statuses": st})
             styles.append({"style": name, "size": len(text), "rc": rc,
                            "digest": hashlib.sha256(json.dumps(outs, sort_keys=True).encode()).hexdigest()[:20]})
             if first_out is None:
@@ -447,8 +475,10 @@ def run(pid, tier):
         chk.sample([e for e in traces[0][:14]], limit=1)
     else:
         values = []
-        small = [[{"path": "app"}, {"path": "app2", "uses": ["app"]}, {"path": "app-web", "uses": ["app/src.txt"], "ignores": ["app/README.md"]}],
-                 [{"path": "a"}, {"path": "a/b"}, {"path": "c", "uses": ["a/b"]}],
+        small = [[{"path": "app", "commands": {"definitions": {"lint": {}}}, "argmaps": {}},
+                  {"path": "app2", "uses": ["app"], "argmaps": {"definitions": {"ci": {"path": "app2/ci-args.json"}}}},
+                  {"path": "app-web", "uses": ["app/src.txt"], "ignores": ["app/README.md"], "commands": {"path": "app-web/tools"}}],
+                 [{"path": "a", "commands": {}}, {"path": "a/b", "argmaps": {"definitions": {}}}, {"path": "c", "uses": ["a/b"]}],
                  [{"path": "svc/é%02d" % i, "ignores": ["svc/é%02d/dócs/%s" % (i, "ü" * 20)]} for i in range(64)]]
         for t in small:
             values.append((t, None))
